@@ -160,7 +160,8 @@ class Mesh:
         if not self.is_assembled:
             raise RuntimeError("Cannot backport non-assembled mesh")
 
-        operations = self.operations
+        # blocks were created from non-deleted operations only
+        operations = [operation for operation in self.operations if operation not in self.deleted]
         blocks = self.blocks
 
         for i, block in enumerate(blocks):
